@@ -41,7 +41,9 @@ enum Kind {
     Pinned { role: Role, off: i64, big_delegated: bool, pin_targets_too: bool },
     /// one request is answered with an endless or oversized stream
     Stream { role: Role, endless: bool, chunk: usize, pinned: bool },
-    RootChain { max_updates: u64, chain: u64 },
+    /// `tail`: what the server answers for the root file AFTER the last newer root: 0 nothing (404),
+    /// 1 the last root's own bytes again (same version under the next name), 2 an older root's bytes
+    RootChain { max_updates: u64, chain: u64, tail: u8 },
     Graph { graph: &'static str },
 }
 
@@ -160,8 +162,12 @@ fn gen_cases(cfg: &Cfg) -> Vec<Case> {
     for max_updates in [1u64, 2, 3, 5, 8] {
         for extra in [-1i64, 0, 1, 50] {
             let chain = (max_updates as i64 + extra).max(0) as u64;
-            push(&mut v, Kind::RootChain { max_updates, chain });
-            push(&mut v, Kind::RootChain { max_updates, chain });
+            push(&mut v, Kind::RootChain { max_updates, chain, tail: 0 });
+            push(&mut v, Kind::RootChain { max_updates, chain, tail: 0 });
+            if chain >= 1 {
+                push(&mut v, Kind::RootChain { max_updates, chain, tail: 1 });
+                push(&mut v, Kind::RootChain { max_updates, chain, tail: 2 });
+            }
         }
     }
     for graph in ["tree", "diamond", "self", "mutual", "three-cycle", "deep-chain"] {
@@ -188,7 +194,7 @@ fn gen_cases(cfg: &Cfg) -> Vec<Case> {
             2 => Kind::Stream { role, endless: r.bool(), chunk: *r.pick(&[1usize, 7, 64, 4096]), pinned: r.bool() },
             3 => {
                 let m = 1 + r.below(8);
-                Kind::RootChain { max_updates: m, chain: r.below(m + 12) }
+                Kind::RootChain { max_updates: m, chain: r.below(m + 12), tail: r.below(3) as u8 }
             }
             _ => Kind::Graph { graph: *r.pick(&["tree", "diamond", "self", "mutual", "three-cycle", "deep-chain"]) },
         };
@@ -393,7 +399,7 @@ fn run_case(w: &mut Worker, c: &Case) -> CaseOut {
             out.desc = Some(obj! {"kind" => "endless/oversized answer", "role" => rname(*role), "endless" => *endless, "chunk" => *chunk,
                 "bound" => bound, "bound_kind" => kind, "bytes_pulled_for_file" => pulled, "observed" => obs_text(&res)});
         }
-        Kind::RootChain { max_updates, chain } => {
+        Kind::RootChain { max_updates, chain, tail } => {
             let keys = RootKeys::simple();
             let mut files = build_repo(c.consistent, false, false, None, None, None).files;
             let mut root1 = Vec::new();
@@ -404,7 +410,14 @@ fn run_case(w: &mut Worker, c: &Case) -> CaseOut {
                 }
                 files.insert(meta_path(c.consistent, v, "root"), b);
             }
+            if *tail > 0 {
+                let src = if *tail == 1 { 1 + chain } else { (1 + chain).saturating_sub(1).max(1) };
+                let b = files[&meta_path(c.consistent, src, "root")].clone();
+                files.insert(meta_path(c.consistent, 2 + chain, "root"), b);
+            }
             let t = MemTransport::new(files);
+            // (a client that never stops asking ends here instead of hanging the check)
+            t.set_max_requests(Some(10 * *max_updates as usize + 200));
             let lim = Limits {
                 max_root_updates: *max_updates,
                 ..dflt
@@ -429,7 +442,8 @@ fn run_case(w: &mut Worker, c: &Case) -> CaseOut {
                     }
                 }
                 Err(e) => {
-                    if *chain < *max_updates {
+                    // (with a mis-named root file behind the chain the statement leaves the outcome open)
+                    if *chain < *max_updates && *tail == 0 {
                         out.viol(
                             "short-chain-refused",
                             format!("chain of {chain} newer roots < limit {max_updates} but load failed: {}", e.text()),
@@ -439,9 +453,11 @@ fn run_case(w: &mut Worker, c: &Case) -> CaseOut {
             }
             let rel = if *chain < *max_updates { "below" } else if *chain == *max_updates { "equal" } else { "above" };
             out.h(format!("root-chain:{rel}-limit"));
-            out.fingerprint = Some(format!("chain|{max_updates}|{chain}|{}", c.consistent));
+            out.h(format!("root-chain:tail={}", ["none", "same-version-again", "older-version"][*tail as usize]));
+            out.fingerprint = Some(format!("chain|{max_updates}|{chain}|{tail}|{}", c.consistent));
             out.nontrivial = true;
             out.desc = Some(obj! {"kind" => "chain of valid newer roots", "max_root_updates" => *max_updates, "newer_roots_available" => *chain,
+                "served_under_the_next_root_file_name" => ["nothing", "the last root again (same version)", "an older root"][*tail as usize],
                 "root_files_requested" => root_reqs, "observed" => obs_text(&res)});
         }
         Kind::Graph { graph } => {
@@ -564,13 +580,16 @@ pub fn run(cfg: &Cfg) -> i32 {
     for k in ["below", "equal", "above"] {
         required.push(format!("root-chain:{k}-limit"));
     }
+    for k in ["none", "same-version-again", "older-version"] {
+        required.push(format!("root-chain:tail={k}"));
+    }
     required.push("legit:delegated-larger-than-targets-json".into());
     finish(
         cfg,
         ev,
         Finish {
             level: "fault_enumeration",
-            rule: "update cycles of the real client against an in-memory transport that counts requests and bytes pulled per URL: (a) configured per-role limit in {0, size-1, size, size+1, default, huge} for root/timestamp/snapshot/targets/delegated; (b) parent-pinned length = size-40..size+1000 for snapshot/targets/delegated, with the delegated role smaller and LARGER than targets.json and targets.json's own length pinned or not; (c) one request answered by an endless or 50 kB-oversized stream in 1/64/4096-byte chunks, pinned or not; (d) chains of max_root_updates-1/=/+1/+50 valid newer roots; (e) delegation graphs tree/diamond/deep chain/self/mutual/3-cycle with the decision taken on the request counter (bound = max_root_updates + 3 + published delegations; the transport fails everything after 10*bound+50 requests so that the run terminates). Every listed combination is run twice (both consistent-snapshot settings alternate), plus seeded random picks. Fingerprint = all parameters.",
+            rule: "update cycles of the real client against an in-memory transport that counts requests and bytes pulled per URL: (a) configured per-role limit in {0, size-1, size, size+1, default, huge} for root/timestamp/snapshot/targets/delegated; (b) parent-pinned length = size-40..size+1000 for snapshot/targets/delegated, with the delegated role smaller and LARGER than targets.json and targets.json's own length pinned or not; (c) one request answered by an endless or 50 kB-oversized stream in 1/64/4096-byte chunks, pinned or not; (d) chains of max_root_updates-1/=/+1/+50 valid newer roots, followed by nothing, by the last root's bytes again under the next file name, or by an older root's bytes; (e) delegation graphs tree/diamond/deep chain/self/mutual/3-cycle with the decision taken on the request counter (bound = max_root_updates + 3 + published delegations; the transport fails everything after 10*bound+50 requests so that the run terminates). Every listed combination is run twice (both consistent-snapshot settings alternate), plus seeded random picks. Fingerprint = all parameters.",
             assumptions: vec![
                 "bytes pulled may exceed the bound by at most one transport chunk (the client cannot un-pull a chunk)".into(),
                 "when exactly max_root_updates newer roots exist the cycle may end in success or in an error; only the number of requests is judged".into(),
